@@ -108,10 +108,18 @@ func replayCLI(args []string) int {
 	p.Dump(&b)
 	dump := append([]byte{}, b.Bytes()...)
 	stdin := []byte(cliFixtures["-"])
+	// a stale, longer dump that is lying at the --bdump path from an earlier run
+	bigp, _ := bcl.Parse([]byte(cliFixtures["f.bcl"]+strings.Repeat("print \"padding\" + 12345\n", 40)), "stale.bcl", bcl.OptOutput(&bytes.Buffer{}))
+	var sb bytes.Buffer
+	bigp.Dump(&sb)
+	stale := append([]byte{}, sb.Bytes()...)
 	judge := func(c *cliCase) (why, shape string, o cliObs) {
 		os.WriteFile(filepath.Join(dir, "i.bcb"), dump, 0o644)
 		for _, f := range []string{"o.bcb", "f.bcb", "e.bcb", "r.bcb", "nope.bcb"} {
 			os.Remove(filepath.Join(dir, f))
+		}
+		if c.Bdump && c.BdumpFile != "" && c.BdumpFile != "i.bcb" && len(c.Argv)%2 == 0 {
+			os.WriteFile(filepath.Join(dir, c.BdumpFile), stale, 0o644) // every other case: the dump file already exists
 		}
 		in := stdin
 		if c.Bload && c.File == "-" {
@@ -136,9 +144,10 @@ func replayCLI(args []string) int {
 		if c.Exit == 0 && o.Stderr != "" {
 			return "success with text on standard error: " + o.Stderr, "stderr-on-success", o
 		}
-		_, statErr := os.Stat(filepath.Join(dir, c.BdumpFile))
-		if c.Bdump && c.DumpWritten != (statErr == nil) {
-			return fmt.Sprintf("dump file %s: written=%v, specification %v", c.BdumpFile, statErr == nil, c.DumpWritten), "dump-file", o
+		now, statErr := os.ReadFile(filepath.Join(dir, c.BdumpFile))
+		written := statErr == nil && !bytes.Equal(now, stale)
+		if c.Bdump && c.BdumpFile != "i.bcb" && c.DumpWritten != written {
+			return fmt.Sprintf("dump file %s: written=%v, specification %v", c.BdumpFile, written, c.DumpWritten), "dump-file", o
 		}
 		// the mirror: library output for the same input and options
 		if c.RClass == "ok" || c.RClass == "runtime-error" || c.RClass == "parse-error" {
